@@ -1,3 +1,4 @@
+import CfbVerif.Spec.Consts
 import CfbVerif.Raw.Safe
 /-!
 # C05 — reading arbitrary bytes never panics, hangs or exhausts memory
